@@ -246,6 +246,10 @@ pub fn run(scenario: &str, input: &Value) -> Option<(bool, Value)> {
                 stream.extend_from_slice(&m);
                 msgs.push(m);
             }
+            // "cut_tail": n - the stream ends n bytes before the end of the LAST frame (end-of-stream inside a frame):
+            // that frame must be reported as an error, not as a short message
+            let cut = input.get("cut_tail").and_then(|v| v.as_u64()).unwrap_or(0) as usize;
+            if cut > 0 { let l = stream.len(); stream.truncate(l.saturating_sub(cut)); }
             struct Chunked { data: Vec<u8>, pos: usize, chunk: usize, pend: bool }
             impl tokio::io::AsyncRead for Chunked {
                 fn poll_read(mut self: std::pin::Pin<&mut Self>, cx: &mut std::task::Context<'_>, buf: &mut tokio::io::ReadBuf<'_>) -> std::task::Poll<std::io::Result<()>> {
@@ -266,10 +270,11 @@ pub fn run(scenario: &str, input: &Value) -> Option<(bool, Value)> {
                 let de = MessageDeframer::new(if dist { FrameMode::Distribution } else { FrameMode::Handshake });
                 let mut got_lens = Vec::new();
                 let mut ok = true;
-                for m in &msgs {
+                for (k, m) in msgs.iter().enumerate() {
+                    let must_fail = cut > 0 && k + 1 == msgs.len();
                     match de.read_framed(&mut rd).await {
-                        Ok(v) => { got_lens.push(v.len() as i64); ok &= v == *m; }
-                        Err(_) => { got_lens.push(-1); ok = false; }
+                        Ok(v) => { got_lens.push(v.len() as i64); ok &= v == *m && !must_fail; }
+                        Err(_) => { got_lens.push(-1); ok &= must_fail; }
                     }
                 }
                 // after the last frame the stream is exhausted: one more read must fail, not invent a message
@@ -365,6 +370,49 @@ pub fn run(scenario: &str, input: &Value) -> Option<(bool, Value)> {
                 }
             };
             Some(res)
+        }
+        // C20: proplist <-> map helpers lose nothing.  Oracle written from the meaning of a proplist: a list of {K, V}
+        // pairs and bare atoms (= {Atom, true}); in a map the LAST pair of a key wins.
+        //   term = map  : map_to_proplist then proplist_to_map gives the same map back, and the proplist has exactly
+        //                 the map's pairs;
+        //   term = list : proplist_to_map has exactly the distinct keys of the list, each with its last value; going
+        //                 back with map_to_proplist gives those pairs.
+        "proplist_roundtrip" => {
+            use erltf::OwnedTerm as T;
+            let t = term(&input["term"]);
+            let through_wire = input.get("wire").and_then(|v| v.as_bool()).unwrap_or(false);
+            let t = if through_wire { erltf::decode(&erltf::encode(&t).ok()?).ok()? } else { t };
+            let pairs_of = |l: &T| -> Vec<(T, T)> {
+                let mut out: Vec<(T, T)> = vec![];
+                let els: Vec<T> = match l { T::List(e) => e.clone(), T::Nil => vec![], _ => return vec![] };
+                for e in els {
+                    let kv = match &e { T::Tuple(x) if x.len() == 2 => Some((x[0].clone(), x[1].clone())), T::Atom(_) => Some((e.clone(), T::boolean(true))), _ => None };
+                    if let Some((k, v)) = kv {
+                        if let Some(slot) = out.iter_mut().find(|(k2, _)| *k2 == k) { slot.1 = v; } else { out.push((k, v)); }
+                    }
+                }
+                out
+            };
+            let same_pairs = |m: &T, want: &Vec<(T, T)>| -> bool {
+                match m { T::Map(mm) => mm.len() == want.len() && want.iter().all(|(k, v)| mm.get(k) == Some(v)), _ => false }
+            };
+            let (ok, obs) = match &t {
+                T::Map(mm) => {
+                    let want: Vec<(T, T)> = mm.iter().map(|(k, v)| (k.clone(), v.clone())).collect();
+                    let pl = t.map_to_proplist();
+                    let back = pl.as_ref().ok().and_then(|p| p.proplist_to_map().ok());
+                    let ok = match (&pl, &back) { (Ok(p), Some(b)) => pairs_of(p).len() == want.len() && same_pairs(b, &want) && *b == t, _ => false };
+                    (ok, json!({"proplist": format!("{:?}", pl), "map_again": format!("{:?}", back)}))
+                }
+                _ => {
+                    let want = pairs_of(&t);
+                    let m = t.proplist_to_map();
+                    let back = m.as_ref().ok().and_then(|x| x.map_to_proplist().ok());
+                    let ok = match (&m, &back) { (Ok(mm), Some(b)) => same_pairs(mm, &want) && { let p2 = pairs_of(b); p2.len() == want.len() && want.iter().all(|kv| p2.contains(kv)) }, _ => false };
+                    (ok, json!({"map": format!("{:?}", m), "proplist_again": format!("{:?}", back)}))
+                }
+            };
+            Some((ok, obs))
         }
         // C15: a big integer of n <= 8 little-endian digits (what the wire delivers for wide integers) is read by the
         // integer deserializers as exactly its value, or rejected when it does not fit
@@ -492,34 +540,49 @@ pub fn run(scenario: &str, input: &Value) -> Option<(bool, Value)> {
         // C02: every decoding entry point returns; allocation stays proportional to the input
         "decode_bytes" => {
             let data = gen_bytes(input);
-            let entry = input["entry"].as_str().unwrap_or("owned").to_string();
             let stack = input.get("stack_bytes").and_then(|v| v.as_u64()).unwrap_or(2 * 1024 * 1024) as usize;
-            let len = data.len();
             let extra = input.get("inflated").and_then(|v| v.as_u64()).unwrap_or(0) as usize;
-            crate::alloc_probe::reset();
-            let h = std::thread::Builder::new().stack_size(stack).spawn(move || {
-                let r: String = match entry.as_str() {
-                    "owned" => format!("{:?}", erltf::decode(&data).map(|t| t.type_name())),
-                    "borrowed" => format!("{:?}", erltf::decoder::decode_borrowed(&data).map(|_| "term").map_err(|e| e.error)),
-                    "with_trailing" => format!("{:?}", erltf::decoder::decode_with_trailing(&data).map(|(t, _)| t.type_name())),
-                    "atom_cache" => {
-                        let mut c = erltf::decoder::AtomCache::new();
-                        format!("{:?}", erltf::decoder::decode_with_atom_cache(&data, &mut c).map(|(t, _)| t.type_name()))
-                    }
-                    "fragment_header" => format!("{:?}", erltf::decoder::decode_fragment_header(&data).map(|(h, _)| h.fragment_id)),
-                    _ => "unknown entry".to_string(),
-                };
-                r
-            }).expect("spawn");
-            let res = h.join();
-            let max_req = crate::alloc_probe::max_req();
-            let budget = 64 * (len + extra) + 65536;
-            match res {
-                Ok(r) => Some((max_req <= budget, json!({"result": r.chars().take(80).collect::<String>(), "input_len": len, "max_single_allocation": max_req, "budget": budget}))),
-                Err(_) => Some((false, json!({"result": "panic", "input_len": len}))),
+            let entry = input["entry"].as_str().unwrap_or("owned").to_string();
+            let entries: Vec<String> = if entry == "all" { ["owned", "borrowed", "with_trailing", "atom_cache", "fragment_header"].iter().map(|s| s.to_string()).collect() } else { vec![entry] };
+            // "all_prefixes": the input and every truncation of it (C02: truncation at every offset of a valid encoding)
+            let lens: Vec<usize> = if input.get("all_prefixes").and_then(|v| v.as_bool()).unwrap_or(false) { (0..=data.len()).rev().collect() } else { vec![data.len()] };
+            let mut last = json!(null);
+            for k in lens {
+                for e in &entries {
+                    let (ok, obs) = decode_bytes_once(data[..k].to_vec(), e.clone(), stack, extra);
+                    if !ok { return Some((false, json!({"entry": e, "prefix_len": k, "bytes": &data[..k], "observed": obs}))); }
+                    last = obs;
+                }
             }
+            Some((true, last))
         }
         _ => None,
+    }
+}
+
+fn decode_bytes_once(data: Vec<u8>, entry: String, stack: usize, extra: usize) -> (bool, Value) {
+    let len = data.len();
+    crate::alloc_probe::reset();
+    let h = std::thread::Builder::new().stack_size(stack).spawn(move || {
+        let r: String = match entry.as_str() {
+            "owned" => format!("{:?}", erltf::decode(&data).map(|t| t.type_name())),
+            "borrowed" => format!("{:?}", erltf::decoder::decode_borrowed(&data).map(|_| "term").map_err(|e| e.error)),
+            "with_trailing" => format!("{:?}", erltf::decoder::decode_with_trailing(&data).map(|(t, _)| t.type_name())),
+            "atom_cache" => {
+                let mut c = erltf::decoder::AtomCache::new();
+                format!("{:?}", erltf::decoder::decode_with_atom_cache(&data, &mut c).map(|(t, _)| t.type_name()))
+            }
+            "fragment_header" => format!("{:?}", erltf::decoder::decode_fragment_header(&data).map(|(h, _)| h.fragment_id)),
+            _ => "unknown entry".to_string(),
+        };
+        r
+    }).expect("spawn");
+    let res = h.join();
+    let max_req = crate::alloc_probe::max_req();
+    let budget = 64 * (len + extra) + 65536;
+    match res {
+        Ok(r) => (max_req <= budget, json!({"result": r.chars().take(80).collect::<String>(), "input_len": len, "max_single_allocation": max_req, "budget": budget})),
+        Err(_) => (false, json!({"result": "panic", "input_len": len})),
     }
 }
 
